@@ -241,7 +241,7 @@ From TP Require Import Struct.NoneFields Struct.NoneFieldsProofs Struct.Immutabl
    with or without _enable_undefined_value, every ordinary key and every value (None included) *)
 Theorem C04_src_setattr_immutable_options : forall re_match e c u st n v,
     c_immutable c = true -> ordinary_name n = true ->
-    run_decision re_match e c true st n (Structure__setattr_nf (undef_heap c u true) (PStr n) v)
+    run_decision re_match e c true st n (Structure__setattr_nf (undef_heap c u true (u_attrs st)) (PStr n) v)
     = (st, Instance.Raised ValueError).
 Proof. exact generated_immutable_options. Qed.
 
@@ -251,59 +251,72 @@ Theorem C04_options_history : forall re_match e c u ops st,
     run_sets re_match e c u st ops = st /\ all_raise re_match e c u st ops = true.
 Proof. exact immutable_history. Qed.
 
-(* a field declared immutable, holding a value, inside ANY class: an assignment to it leaves both components as they
-   were, except on the one path where __setattr__ returns before Field.__set__ is reached *)
+(* a field declared immutable, holding a value, inside ANY class: EVERY assignment to it leaves both components as
+   they were -- also None under _enable_undefined_value, the path on which __setattr__ returns before Field.__set__
+   is reached: since the repair of finding F23 that branch tests the field's immutability itself *)
 Theorem C04_immutable_field_assignment : forall re_match e c u inst st n v fd,
     find_field (c_fields c) n = Some fd -> fd_immutable fd = true -> alist_has (u_attrs st) n = true ->
-    none_marker_path c u n v = false ->
     fst (setattr_u re_match e c u inst st n v) = st.
 Proof. exact immutable_field_setattr. Qed.
 
-(* ... and so does every finite history of assignments to any keys that avoids that path *)
-Theorem C04_immutable_field_history : forall re_match e c u fd n ops st,
+(* the source's own effect list says so (the generated translation of Structure.__setattr__, on the heap that shows
+   the instance's __dict__ and the Field objects of the class) *)
+Theorem C04_src_immutable_field_assignment : forall re_match e c u inst st n v fd,
+    ordinary_name n = true ->
     find_field (c_fields c) n = Some fd -> fd_immutable fd = true -> alist_has (u_attrs st) n = true ->
-    avoids_marker_path c u n ops = true ->
-    field_view (run_sets re_match e c u st ops) n = field_view st n.
-Proof. exact immutable_field_history. Qed.
+    fst (run_decision re_match e c inst st n (Structure__setattr_nf (undef_heap c u inst (u_attrs st)) (PStr n) v)) = st.
+Proof.
+  intros re_match e c u inst st n v fd Hn Hf Hi Hh. rewrite (generated_setattr_nf c u inst (u_attrs st) n v Hn).
+  exact (immutable_field_setattr re_match e c u inst st n v fd Hf Hi Hh).
+Qed.
 
-(* the hole (finding F23): on that path the marker IS added, whatever the field's immutability *)
+(* the refused marker: ValueError, both components as they were *)
+Theorem C04_marker_blocked_raises : forall re_match e c u inst st n v,
+    marker_blocked c u (u_attrs st) n v = true ->
+    setattr_u re_match e c u inst st n v = (st, Instance.Raised ValueError).
+Proof. exact marker_blocked_raises. Qed.
+
+(* what remains of the None-marker path: for a field that is not declared immutable, or holds no value yet, the
+   marker is added (the documented behaviour of _enable_undefined_value) *)
 Theorem C04_none_marker_path_changes : forall re_match e c u inst st n v,
     (c_immutable c && inst) = false -> none_marker_path c u n v = true -> str_in n (u_none st) = false ->
+    (alist_has (u_attrs st) n && field_immutable c n) = false ->
     setattr_u re_match e c u inst st n v = ({| u_attrs := u_attrs st; u_none := n :: u_none st |}, Instance.Done).
 Proof. exact none_marker_path_changes. Qed.
 
+(* THE STATEMENT, unconditional: every finite history of assignments (any keys, any values) leaves what the client
+   sees of an immutable field holding a value -- its attribute and its None marker -- as it was.  (Until the repair
+   of F23 this was refuted by x.f = None under _enable_undefined_value.) *)
 Definition C04_immutable_field_statement : Prop :=
   forall re_match e c u fd n ops st,
     find_field (c_fields c) n = Some fd -> fd_immutable fd = true -> alist_has (u_attrs st) n = true ->
     field_view (run_sets re_match e c u st ops) n = field_view st n.
 
+Theorem C04_immutable_field_history : C04_immutable_field_statement.
+Proof. exact immutable_field_history. Qed.
+
 Definition ex_opt_class := opt_class false true false true false.   (* mutable class, immutable optional field f *)
 Definition ex_opt_state : ustate := {| u_attrs := [(s2p "f", PNum (NInt 3))]; u_none := [] |}.
 
-Theorem C04_immutable_field_statement_refuted : ~ C04_immutable_field_statement.
-Proof.
-  intros H.
-  specialize (H (fun _ _ => true) [] ex_opt_class true
-                {| fd_name := s2p "f"; fd_field := opt_int; fd_immutable := true; fd_default := None |}
-                (s2p "f") [(s2p "f", PNone)] ex_opt_state eq_refl eq_refl eq_refl).
-  vm_compute in H. discriminate H.
-Qed.
-
-(* non-vacuity: the hypotheses of the history theorems hold for non-trivial inputs, and the conclusion is not
-   trivially about an empty state *)
+(* non-vacuity: the hypotheses of the history theorems hold for non-trivial inputs (the former counterexample
+   x.f = None included), the conclusion is not trivially about an empty state, and the marker is still added for a
+   field that is not immutable *)
 Example C04_options_nonvacuous :
   c_immutable (opt_class true false true true false) = true /\
-  avoids_marker_path ex_opt_class true (s2p "f")
-     [(s2p "f", PNum (NInt 4)); (s2p "g", PNone); (s2p "f", PStr (s2p "bad")); (s2p "zz", PNum (NInt 1))] = true /\
   field_view (run_sets (fun _ _ => true) [] ex_opt_class true ex_opt_state
-     [(s2p "f", PNum (NInt 4)); (s2p "g", PNone); (s2p "f", PStr (s2p "bad")); (s2p "zz", PNum (NInt 1))]) (s2p "f")
+     [(s2p "f", PNum (NInt 4)); (s2p "f", PNone); (s2p "g", PNone); (s2p "f", PStr (s2p "bad")); (s2p "zz", PNum (NInt 1))]) (s2p "f")
   = (Some (PNum (NInt 3)), false) /\
+  setattr_u (fun _ _ => true) [] ex_opt_class true true ex_opt_state (s2p "f") PNone = (ex_opt_state, Instance.Raised ValueError) /\
+  marker_blocked ex_opt_class true (u_attrs ex_opt_state) (s2p "f") PNone = true /\
+  field_view (run_sets (fun _ _ => true) [] (opt_class false false false true false) true ex_opt_state [(s2p "f", PNone)]) (s2p "f")
+  = (Some (PNum (NInt 3)), true) /\
   alist_has (u_attrs (run_sets (fun _ _ => true) [] ex_opt_class true ex_opt_state [(s2p "zz", PNum (NInt 1))])) (s2p "zz") = true.
 Proof. vm_compute. repeat split; reflexivity. Qed.
 
 Print Assumptions C04_src_setattr_immutable_options.
 Print Assumptions C04_options_history.
 Print Assumptions C04_immutable_field_assignment.
+Print Assumptions C04_src_immutable_field_assignment.
+Print Assumptions C04_marker_blocked_raises.
 Print Assumptions C04_immutable_field_history.
 Print Assumptions C04_none_marker_path_changes.
-Print Assumptions C04_immutable_field_statement_refuted.
